@@ -18,6 +18,9 @@ import (
 	"github.com/rpcpool/yellowstone-faithful/iplddecoders"
 )
 
+// verifC15KnownEnd closes the region of a known finding (engine intrinsic, see engine/symgo/ext_C15.go).
+func verifC15KnownEnd(id string) {}
+
 func VerifC15Trunc() {
 	const tag = "C15.trunc"
 	verifC15QueueCap = verifParam("queuecap", 1)
@@ -101,7 +104,8 @@ func VerifC15Stop() {
 	verifKnownFinding("C15-errstop-deadlock", true)
 	oa := NewObjectAccumulator(c15NewReader(img, H), iplddecoders.KindBlock, cb)
 	err := oa.Run(context.Background())
-	_ = err
+	verifC15KnownEnd("C15-errstop-deadlock")
+	_ = err // nil or ErrStop: either is acceptable
 	verifAssert(n == stopAt+1, tag+": callbacks were made after the callback asked to stop")
 	verifReach("end")
 }
@@ -138,6 +142,7 @@ func VerifC15Cancel() {
 	verifKnownFinding("C15-errstop-deadlock", true)
 	oa := NewObjectAccumulator(c15NewReader(img, H), iplddecoders.KindBlock, cb)
 	err := oa.Run(ctx)
+	verifC15KnownEnd("C15-errstop-deadlock")
 	_ = err
 	// whatever was delivered is a correct prefix of the traversal
 	c15CheckRecord(tag, img, secs, 0, len(*got), kinds, nil, *got, false)
@@ -163,6 +168,7 @@ func VerifC15Short() {
 	cb, got := c15Recorder(false)
 	oa := NewObjectAccumulator(c15NewReader(img, H), iplddecoders.KindBlock, cb, ign...)
 	err := oa.Run(context.Background())
+	verifC15KnownEnd("C15-short-payload-panic")
 	verifAssert(err != nil, tag+": Run reports success on a CAR with an object that has no kind byte")
 	c15CheckRecord(tag, img, secs, 0, k-1, kinds, ign, *got, false)
 	verifReach("end")
